@@ -1477,6 +1477,29 @@ func (g *Gen) resolveBefore(at ssa.Instruction, name string) *Val {
 	if v := g.allocNamed(at.Block(), at, name); v != nil {
 		return v
 	}
+	if name == "rangeindex" {
+		// the hidden index of the innermost range loop containing the instruction (-1 before the first element;
+		// the element being processed in the body has index rangeindex + 1)
+		var best *loopInfo
+		for _, li := range g.loops {
+			if li.body[at.Block()] && (best == nil || len(li.body) < len(best.body)) {
+				for _, in := range li.header.Instrs {
+					if phi, ok := in.(*ssa.Phi); ok && phi.Comment == "rangeindex" {
+						best = li
+					}
+				}
+			}
+		}
+		if best != nil {
+			for _, in := range best.header.Instrs {
+				if phi, ok := in.(*ssa.Phi); ok && phi.Comment == "rangeindex" {
+					if v, ok := g.vals[phi]; ok {
+						return v
+					}
+				}
+			}
+		}
+	}
 	b := at.Block()
 	var best ssa.Value
 	bestAddr := false
